@@ -5,7 +5,7 @@ CONSTANTS
   NilCloseGuarded = TRUE
   MaxContent = 3
   MaxChunks = 3
-  MaxChunk = 3
+  MaxChunk = 2
   ReadSizes = {0, 1, 2, 4096}
   MaxHist = 4
   MaxConds = 1
